@@ -172,8 +172,8 @@ class Snap:
             items = [self._norm(x, path + "{}", depth + 1) for x in v]
             return ["set"] + sorted(items, key=repr)
         if isinstance(v, dict):
-            items = [(self._norm(k, path + ".key", depth + 1), self._norm(x, path + "[%s]" % _keystr(k), depth + 1))
-                     for k, x in v.items()]
+            items = [(self._norm(k, path + ".key%d" % i, depth + 1), self._norm(x, path + "[%s]" % _keystr(k), depth + 1))
+                     for i, (k, x) in enumerate(v.items())]
             return ["dict"] + [list(kv) for kv in items]      # insertion order is observable
         if _is_problem_object(v):
             return ("ref", self._enqueue(v, path))
@@ -240,6 +240,12 @@ class Snap:
                 except Exception as e:
                     vals.append((p.name, type(e).__name__))
             out["[particle]"] = vals
+        # the modifier inputs of a cell are public classes with public setters, held in private attributes
+        if type(o).__name__ in ("Cell", "Cells"):
+            for n in ("_volume", "_universe", "_lattice"):
+                v = getattr(o, n, None)
+                if v is not None and _is_problem_object(v):
+                    out["(held) " + n] = ("ref", self._enqueue(v, lab + "." + n))
         if type(o).__name__ == "CellDataPrintController":
             out["[key]"] = []
             for k in ("imp", "vol", "u", "lat", "fill"):
@@ -282,3 +288,1752 @@ def written(problem, name):
         return mp.write_problem(problem, name)
     except Exception as e:
         return "WRITE RAISES " + type(e).__name__
+
+
+# =================================================================================================
+# argument specifications (JSON-able) and the kind of a value as the model sees it
+# =================================================================================================
+def kind_of(v):
+    """kind token of a Python value (coq/Model/Setter.v: rd_kind_tok)"""
+    import numbers
+    import numpy as np
+    if isinstance(v, bool):
+        return "b"
+    if isinstance(v, int):
+        return "i"
+    if isinstance(v, float):
+        return "f"
+    if v is None:
+        return "n"
+    if isinstance(v, str):
+        return "s"
+    if isinstance(v, complex):
+        return "c"
+    if type(v) is list:
+        return "l"
+    if type(v) is tuple:
+        return "t"
+    if type(v) is set:
+        return "e"
+    if type(v) is dict:
+        return "d"
+    if isinstance(v, np.ndarray):
+        return "a"
+    if isinstance(v, numbers.Number):
+        return "r"
+    m = getattr(type(v), "__module__", "") or ""
+    if m.startswith("montepy"):
+        return "o" + type(v).__name__.encode().hex()
+    return "x"
+
+
+def L(v):
+    return {"t": "lit", "v": v}
+
+
+def O(label):
+    return {"t": "obj", "label": label}
+
+
+def build(spec, objs):
+    """spec -> Python value; objs: label -> object of the problem the value is built for"""
+    import numpy as np
+    import montepy
+    t = spec["t"]
+    if t == "lit":
+        return spec["v"]
+    if t == "float":
+        return float(spec["v"])
+    if t == "bigint":
+        return int(spec["sign"]) * 10 ** int(spec["exp"])
+    if t == "complex":
+        return complex(spec["re"], spec["im"])
+    if t == "fraction":
+        import fractions
+        return fractions.Fraction(spec["n"], spec["d"])
+    if t == "decimal":
+        import decimal
+        return decimal.Decimal(spec["v"])
+    if t == "npfloat":
+        return np.float64(float(spec["v"]))
+    if t == "npint":
+        return np.int64(spec["v"])
+    if t == "object":
+        return object()
+    if t == "obj":
+        return objs[spec["label"]]
+    if t == "list":
+        return [build(x, objs) for x in spec["items"]]
+    if t == "tuple":
+        return tuple(build(x, objs) for x in spec["items"])
+    if t == "set":
+        return set(build(x, objs) for x in spec["items"])
+    if t == "dict":
+        return {build(k, objs): build(v, objs) for k, v in spec["items"]}
+    if t == "array":
+        items = [build(x, objs) for x in spec["items"]]
+        dt = {"float": float, "int": int, "object": object, "str": str}[spec.get("dtype", "float")]
+        a = np.array(items, dtype=dt) if dt is not object else _obj_array(items)
+        return a.reshape(spec["shape"]) if spec.get("shape") is not None else a
+    if t == "particle":
+        return montepy.particle.Particle[spec["name"]]
+    if t == "enum":
+        cls = {"Lattice": montepy.data_inputs.lattice.Lattice, "SurfaceType": montepy.surfaces.surface_type.SurfaceType,
+               "Operator": montepy.geometry_operators.Operator}[spec["cls"]]
+        return cls[spec["name"]]
+    if t == "new":
+        return _new_object(spec)
+    if t == "cells":
+        from montepy.cells import Cells
+        members = [build(x, objs) for x in spec["items"]]
+        c = Cells(members)
+        for i, n in spec.get("renumber", []):      # free-standing cells: the number setter has no collection to ask
+            members[i].number = n
+        return c
+    if t == "hs":
+        return _build_hs(spec, objs)
+    raise ValueError("spec " + t)
+
+
+def _obj_array(items):
+    import numpy as np
+    a = np.empty(len(items), dtype=object)
+    for i, x in enumerate(items):
+        a[i] = x
+    return a
+
+
+def _new_object(spec):
+    import montepy
+    from montepy.input_parser.mcnp_input import Input
+    from montepy.input_parser.block_type import BlockType
+    k, n = spec["kind"], spec["number"]
+    if k == "cell":
+        c = montepy.Cell()
+        c.number = n
+        return c
+    if k == "surface":
+        from montepy.surfaces.surface_builder import surface_builder
+        return surface_builder(Input([f"{n} {spec.get('mnemonic', 'so')} {spec.get('consts', '7.5')}"], BlockType.SURFACE))
+    if k == "material":
+        from montepy.data_inputs.material import Material
+        return Material(Input([f"m{n} 1001.80c 0.25"], BlockType.DATA))
+    if k == "transform":
+        from montepy.data_inputs.transform import Transform
+        return Transform(Input([f"tr{n} 1.5 0 0"], BlockType.DATA))
+    if k == "universe":
+        return montepy.Universe(n)
+    raise ValueError(k)
+
+
+def _build_hs(spec, objs):
+    op = spec["op"]
+    if op == "leaf":
+        d = build(spec["div"], objs)
+        return +d if spec["side"] else -d
+    if op == "not":
+        return ~_build_hs(spec["a"], objs)
+    a, b = _build_hs(spec["a"], objs), _build_hs(spec["b"], objs)
+    return (a & b) if op == "and" else (a | b)
+
+
+def spec_of(v, labels, depth=0):
+    """Python value (the current value of a property) -> spec; None when it cannot be expressed"""
+    import numpy as np
+    if v is None or isinstance(v, (bool, str)):
+        return L(v)
+    if isinstance(v, int):
+        return L(int(v))
+    if isinstance(v, float):
+        return L(v) if math.isfinite(v) else {"t": "float", "v": repr(v)}
+    if isinstance(v, enum.Enum):
+        n = type(v).__name__
+        if n == "Particle":
+            return {"t": "particle", "name": v.name}
+        if n in ("Lattice", "SurfaceType", "Operator"):
+            return {"t": "enum", "cls": n, "name": v.name}
+        return None
+    if id(v) in labels:
+        return O(labels[id(v)])
+    if depth > 3:
+        return None
+    if isinstance(v, np.ndarray):
+        if v.dtype.kind == "O":
+            items = [spec_of(x, labels, depth + 1) for x in v.flatten()]
+            dt = "object"
+        else:
+            items = [spec_of(x, labels, depth + 1) for x in v.flatten().tolist()]
+            dt = "int" if v.dtype.kind in "iu" else "float"
+        if any(i is None for i in items):
+            return None
+        return {"t": "array", "items": items, "shape": list(v.shape), "dtype": dt}
+    if type(v) in (list, tuple, set):
+        seq = sorted(v, key=repr) if type(v) is set else v
+        items = [spec_of(x, labels, depth + 1) for x in seq]
+        if any(i is None for i in items):
+            return None
+        return {"t": type(v).__name__, "items": items}
+    if type(v) is dict:
+        items = [[spec_of(k, labels, depth + 1), spec_of(x, labels, depth + 1)] for k, x in v.items()]
+        if any(a is None or b is None for a, b in items):
+            return None
+        return {"t": "dict", "items": items}
+    return None
+
+
+def spec_kind(spec):
+    """short description of a spec for the statistics"""
+    t = spec["t"]
+    if t == "lit":
+        return type(spec["v"]).__name__
+    if t == "obj":
+        return "obj"
+    return t
+
+
+# values of every kind, for the wrong-type class
+def type_pool(rng, snap):
+    pool = [L(5), L(-3), L(2.5), L("abc"), L(""), L(None), L(True), {"t": "list", "items": []},
+            {"t": "list", "items": [L(1), L(2)]}, {"t": "tuple", "items": [L(1.0), L(2.0)]},
+            {"t": "dict", "items": []}, {"t": "set", "items": []}, {"t": "complex", "re": 1.0, "im": 2.0},
+            {"t": "object"}, {"t": "array", "items": [L(1.0), L(2.0)], "shape": [2], "dtype": "float"},
+            {"t": "particle", "name": "NEUTRON"}, {"t": "enum", "cls": "Lattice", "name": "HEXAHEDRA"},
+            {"t": "fraction", "n": 1, "d": 3}, {"t": "npfloat", "v": "1.5"}, {"t": "npint", "v": 3}]
+    by_cls = {}
+    for lab, o in snap.objs.items():
+        by_cls.setdefault(type(o).__name__, []).append(lab)
+    for cls in sorted(by_cls):
+        if cls in ("MCNP_Problem",):
+            continue
+        pool.append(O(rng.choice(by_cls[cls])))
+    return pool
+
+
+def range_pool():
+    return [L(-1), L(0), L(-2.5), L(-1e-300), {"t": "float", "v": "nan"}, {"t": "float", "v": "inf"},
+            {"t": "float", "v": "-inf"}, {"t": "bigint", "sign": 1, "exp": 400}, {"t": "bigint", "sign": -1, "exp": 400},
+            {"t": "fraction", "n": -1, "d": 3}, {"t": "decimal", "v": "-1.5"}, {"t": "npfloat", "v": "-1.0"},
+            {"t": "npint", "v": -4}, L(2 ** 70), L(False)]
+
+
+BAD_ELEMS = [L(None), L("x"), L(-1.0), {"t": "object"}, L(True), {"t": "list", "items": []}, {"t": "float", "v": "nan"},
+             {"t": "complex", "re": 0.0, "im": 1.0}]
+
+
+def corruptions(rng, cur):
+    """structurally illegal variants of the current value (a spec of a list / tuple / array / set / str)"""
+    out = []
+    t = cur["t"]
+    if t in ("list", "tuple", "set", "array"):
+        items = list(cur["items"])
+        n = len(items)
+
+        def mk(new_items, shape="same"):
+            d = dict(cur, items=new_items)
+            if t == "array":
+                d["shape"] = [len(new_items)] if shape != "same" else cur["shape"]
+                if shape == "same" and len(new_items) != n:
+                    d["shape"] = [len(new_items)]
+            return d
+        if n:
+            out.append(mk(items[:-1], "flat"))                    # one element short
+            for pos in sorted({0, n - 1, rng.randrange(n)}):    # a bad element at the start / end / somewhere
+                bad = rng.choice(BAD_ELEMS)
+                new = items[:pos] + [bad] + items[pos + 1:]
+                d = mk(new)
+                if t == "array":
+                    d["dtype"] = "object"
+                out.append(d)
+        out.append(mk(items + [rng.choice(items) if items else L(1.0)], "flat"))   # one element too many
+        out.append(mk([], "flat"))
+        if t == "array" and n >= 2:
+            out.append(dict(cur, shape=[n, 1]))                   # same data, another shape
+            out.append(dict(cur, items=items + items, shape=[2, n]))
+        if t == "list":
+            out.append(dict(cur, t="tuple"))
+            out.append(dict(cur, t="set") if all(i["t"] in ("lit", "particle") for i in items) else L(None))
+        if t == "tuple":
+            out.append(dict(cur, t="list"))
+    elif t == "lit" and isinstance(cur["v"], str):
+        out += [L(cur["v"] + " zz"), L(""), L("zz")]
+    elif t == "dict":
+        out.append({"t": "list", "items": [k for k, _ in cur["items"]]})
+    return out
+
+
+# =================================================================================================
+# the translated setters (coq/Gen/Setters.v, _build/gen/setters.json) as callable entries
+# =================================================================================================
+class Entry:
+    def __init__(self, key, cls, name, kind, ir, file, first_line, params, ndefaults=0, fixed=None, base=None):
+        self.key, self.cls, self.name, self.kind, self.ir = key, cls, name, kind, ir
+        self.file, self.first_line, self.params, self.ndefaults = file, first_line, params, ndefaults
+        self.fixed = fixed          # alias entries: the first argument is fixed by the property (a Particle)
+        self.base = base or key     # the translated program this entry runs
+
+    def nargs(self):
+        if self.kind in ("deleter", "alias_del"):
+            return 0
+        if self.kind in ("alias_set",):
+            return 1
+        return len(self.params)
+
+
+def load_entries(G):
+    out = {}
+    for s in G["setters"]:
+        key = f"{s['cls']}.{s['name']}" + (".del" if s["kind"] == "deleter" else "")
+        out[key] = Entry(key, s["cls"], s["name"], s["kind"], s["ir"], s["file"], s["first_line"], s["params"],
+                         s.get("ndefaults", 0))
+    settable = [d for d in G["props"] if d["types"][0] != "none"]
+    assert len(settable) == len(G["generated"])
+    for d, g in zip(settable, G["generated"]):
+        tm = G["templates"]["make_prop_val_node" if d["kind"] == "val" else "make_prop_pointer"]
+        key = f"{d['cls']}.{d['name']}"
+        e = Entry(key, d["cls"], d["name"], "generated", g["ir"], "utilities.py", tm["setter_line"], ["value"])
+        e.decl = d
+        out[key] = e
+    # Importance.<particle> properties are created at import time by a loop over Particle: closures that
+    # do obj[particle] = value / del obj[particle]
+    import montepy
+    for p in montepy.particle.Particle:
+        for kind, base in (("alias_set", "Importance.__setitem__"), ("alias_del", "Importance.__delitem__")):
+            b = out[base]
+            key = f"Importance.{p.name.lower()}" + (".del" if kind == "alias_del" else "")
+            out[key] = Entry(key, "Importance", p.name.lower(), kind, b.ir, b.file, b.first_line, b.params, 0,
+                             fixed={"t": "particle", "name": p.name}, base=base)
+    return out
+
+
+def ir_functions(G):
+    """(file, first line) of every function an IR was translated from (roots and inlined callees)"""
+    keys = set()
+
+    def walk(ir):
+        for s in ir:
+            if s["op"] == "inline":
+                keys.add((s["callee"]["file"], s["callee"]["first_line"]))
+            for k in ("body", "b1", "b2"):
+                if k in s:
+                    walk(s[k])
+    for s in G["setters"]:
+        keys.add((s["file"], s["first_line"]))
+        walk(s["ir"])
+    for g in G["generated"]:
+        walk(g["ir"])
+    for n in ("make_prop_val_node", "make_prop_pointer"):
+        keys.add(("utilities.py", G["templates"][n]["setter_line"]))
+    return keys
+
+
+def defining_class(obj, name):
+    for c in type(obj).__mro__:
+        if name in c.__dict__:
+            return c.__name__
+    return None
+
+
+def receivers(entry, snap):
+    out = []
+    for lab, o in snap.objs.items():
+        if lab.startswith("arg"):
+            continue
+        if any(c.__name__ == entry.cls for c in type(o).__mro__) and defining_class(o, entry.name) == entry.cls:
+            out.append(lab)
+    return out
+
+
+def invoke(entry, obj, args):
+    k = entry.kind
+    if k in ("setter", "generated", "alias_set"):
+        setattr(obj, entry.name, args[-1])
+    elif k in ("deleter", "alias_del"):
+        delattr(obj, entry.name)
+    else:
+        getattr(obj, entry.name)(*args)
+
+
+def latch_state(obj, name):
+    """the class a `types=()` property accepts right now: the closure cell, or type(obj) when it is still ()"""
+    prop = None
+    for c in type(obj).__mro__:
+        if name in c.__dict__:
+            prop = c.__dict__[name]
+            break
+    f = prop.fset
+    for n, cell in zip(f.__code__.co_freevars, f.__closure__ or ()):
+        if n == "types":
+            v = cell.cell_contents
+            if isinstance(v, tuple) and len(v) == 0:
+                return type(obj).__name__
+            return v.__name__ if isinstance(v, type) else None
+    return type(obj).__name__          # repaired form: a local default
+
+
+# =================================================================================================
+# tracing a real call and walking the trace along the IR
+# =================================================================================================
+_SRC = None
+
+
+def _rel(filename):
+    global _SRC
+    if _SRC is None:
+        import montepy
+        _SRC = os.path.dirname(os.path.abspath(montepy.__file__)) + os.sep
+    f = os.path.abspath(filename) if not filename.startswith("/") else filename
+    return f[len(_SRC):] if f.startswith(_SRC) else None
+
+
+class FrameRec:
+    __slots__ = ("key", "name", "events", "frame", "exc_line", "ret_kind", "primary")
+
+    def __init__(self, key, name, frame, primary):
+        self.key, self.name, self.frame, self.primary = key, name, frame, primary
+        self.events = []
+        self.exc_line = None
+        self.ret_kind = None
+
+
+class Tracer:
+    def __init__(self, ir_keys):
+        self.ir_keys = ir_keys
+        self.roots = []
+        self.stack = []
+        self.by_frame = {}
+        self._rel_cache = {}
+
+    def _global(self, frame, event, arg):
+        if event != "call":
+            return None
+        code = frame.f_code
+        rel = self._rel_cache.get(code.co_filename)
+        if rel is None:
+            rel = _rel(code.co_filename) or ""
+            self._rel_cache[code.co_filename] = rel
+        if not rel:
+            return None
+        key = (rel, code.co_firstlineno)
+        is_ir = key in self.ir_keys
+        primary = code.co_varnames[1] if (is_ir and code.co_argcount >= 2) else None
+        rec = FrameRec(key, code.co_name, frame, primary)
+        self.by_frame[id(frame)] = rec
+        (self.stack[-1].events if self.stack else self.roots).append(("call", rec))
+        self.stack.append(rec)
+        if not is_ir:
+            frame.f_trace_lines = False
+        return self._local
+
+    def _local(self, frame, event, arg):
+        rec = self.by_frame.get(id(frame))
+        if rec is None:
+            return self._local
+        if event == "line":
+            k = None
+            if rec.primary is not None:
+                try:
+                    k = kind_of(frame.f_locals.get(rec.primary))
+                except Exception:
+                    k = "x"
+            rec.events.append(("line", frame.f_lineno, k))
+        elif event == "return":
+            if rec.primary is not None:
+                try:
+                    rec.ret_kind = kind_of(frame.f_locals.get(rec.primary))
+                except Exception:
+                    rec.ret_kind = "x"
+            while self.stack and self.stack[-1] is not rec:
+                self.stack.pop()
+            if self.stack:
+                self.stack.pop()
+        return self._local
+
+    def run(self, fn):
+        """-> exception or None"""
+        exc = None
+        old = sys.gettrace()
+        sys.settrace(self._global)
+        try:
+            fn()
+        except Exception as e:      # noqa: the class of the exception is data here
+            exc = e
+        finally:
+            sys.settrace(old)
+        if exc is not None:
+            tb = exc.__traceback__
+            while tb is not None:
+                rec = self.by_frame.get(id(tb.tb_frame))
+                if rec is not None:
+                    rec.exc_line = tb.tb_lineno
+                tb = tb.tb_next
+        return exc
+
+    def find(self, key):
+        todo = list(self.roots)
+        while todo:
+            ev = todo.pop(0)
+            if ev[0] == "call":
+                if ev[1].key == key:
+                    return ev[1]
+                todo = [e for e in ev[1].events if e[0] == "call"] + todo
+        return None
+
+
+MAY_RAISE_OPS = ("checkinst", "check", "raise", "convert", "iter")
+
+
+class Replay:
+    """walks the trace of one real call along the IR: the adversary's choices and the expected result"""
+
+    def __init__(self):
+        self.raises, self.branches, self.iters, self.unk = {}, {}, {}, {}
+        self.occ = {}
+        self.targets = []
+        self.problems = []
+        self.err_ids = None         # ids of the statements one of which raised (None: the call returned)
+        self.err_declared = None    # the raise statement of a check executed: the class must be the declared one
+        self.err_site = None
+
+    def tick(self, s):
+        o = self.occ.get(s["id"], 0)
+        self.occ[s["id"]] = o + 1
+        return o
+
+    # ---- event helpers --------------------------------------------------------------------------
+    @staticmethod
+    def _span(s):
+        return s["line"], max(s.get("end_line", s["line"]), s.get("raise_end") or 0)
+
+    def walk_function(self, rec, body):
+        st = {"ev": rec.events, "p": 0, "rec": rec}
+        out = self.walk_block(st, body, 0, 10 ** 9)
+        if rec.exc_line is not None and out != "raise":
+            self.problems.append(f"exception passed through {rec.key[0]}:{rec.exc_line} ({rec.name}) but the IR has no "
+                                 f"statement there that may raise")
+            return "raise-unattributed"
+        return out
+
+    def walk_block(self, st, stmts, lo, hi):
+        i = 0
+        n = len(stmts)
+        while i < n:
+            a, b = self._span(stmts[i])
+            j = i + 1
+            while j < n and stmts[j]["line"] == stmts[i]["line"] and stmts[j].get("file") == stmts[i].get("file") \
+                    and stmts[i]["op"] not in ("branch", "loop", "return"):
+                b = max(b, self._span(stmts[j])[1])
+                j += 1
+            out = self.walk_group(st, stmts[i:j], a, b, lo, hi)
+            if out != "normal":
+                return out
+            i = j
+        return "normal"
+
+    def walk_group(self, st, group, a, b, lo, hi):
+        ev, rec = st["ev"], st["rec"]
+        # statements the IR dropped (no effect): their lines and calls are skipped
+        while st["p"] < len(ev):
+            e = ev[st["p"]]
+            if e[0] == "call" or (lo <= e[1] < a):
+                st["p"] += 1
+            else:
+                break
+        if not (st["p"] < len(ev) and ev[st["p"]][0] == "line" and a <= ev[st["p"]][1] <= b):
+            return "lost"
+        calls = []
+        while st["p"] < len(ev):
+            e = ev[st["p"]]
+            if e[0] == "call":
+                calls.append(e[1])
+            elif not (a <= e[1] <= b):
+                break
+            st["p"] += 1
+        ended = st["p"] == len(ev) and rec.exc_line is not None and a <= rec.exc_line <= b
+        # which member raised?
+        raiser = None
+        if ended:
+            for k, s in enumerate(group):
+                if s["op"] == "inline":
+                    c = self._callee(calls, s, consume=False)
+                    if c is not None and c.exc_line is not None:
+                        raiser = k
+                        break
+            if raiser is None:
+                cands = [s for s in group if s["op"] in MAY_RAISE_OPS or (s["op"] == "call" and s["r"])]
+                if not cands:
+                    self.problems.append(f"exception at {rec.key[0]}:{rec.exc_line}: no statement of the IR there may raise "
+                                         f"(ops {[s['op'] for s in group]})")
+                    self.err_ids = set()
+                    return "raise"
+                self.err_ids = {s["id"] for s in cands}
+                self.err_site = (rec.key[0], rec.exc_line)
+                for s in cands:
+                    o = self.occ.get(s["id"], 0)
+                    if s["op"] == "check":
+                        in_raise = s.get("raise_line") and s["raise_line"] <= rec.exc_line <= s["raise_end"]
+                        self.raises[(s["id"], o)] = "" if in_raise else "?"
+                        if in_raise:
+                            self.err_declared = s["exc"]
+                    elif s["op"] in ("convert", "call"):
+                        self.raises[(s["id"], o)] = "?"
+                # members before the first candidate did execute
+                first = min(k for k, s in enumerate(group) if s in cands)
+                for s in group[:first]:
+                    self.exec_simple(st, s, calls)
+                return "raise"
+        for k, s in enumerate(group):
+            if raiser is not None and k == raiser:
+                o = self.tick(s)
+                c = self._callee(calls, s)
+                self._unk_inline(s, o, c)
+                sub = self.walk_function(c, s["body"])
+                if sub not in ("raise",):
+                    self.problems.append(f"exception inside inlined {s['f']} not attributed")
+                return "raise"
+            out = self.exec_simple(st, s, calls)
+            if out != "normal":
+                return out
+        return "normal"
+
+    def _callee(self, calls, s, consume=True):
+        key = (s["callee"]["file"], s["callee"]["first_line"])
+        for c in calls:
+            if c.key == key:
+                if consume:
+                    calls.remove(c)
+                return c
+            # the callee may be entered through a wrapper (property -> closure -> method)
+            sub = self._find_in(c, key)
+            if sub is not None:
+                if consume:
+                    calls.remove(c)
+                return sub
+        return None
+
+    def _find_in(self, rec, key, depth=0):
+        if depth > 3:
+            return None
+        for e in rec.events:
+            if e[0] == "call":
+                if e[1].key == key:
+                    return e[1]
+                r = self._find_in(e[1], key, depth + 1)
+                if r is not None:
+                    return r
+        return None
+
+    def _unk_inline(self, s, o, c):
+        if s["src"][0] == "unknown" and c is not None:
+            k = None
+            for e in c.events:
+                if e[0] == "line":
+                    k = e[2]
+                    break
+            self.unk[(s["id"], o)] = k or "x"
+
+    def exec_simple(self, st, s, calls):
+        ev = st["ev"]
+        op = s["op"]
+        o = self.tick(s)
+        if op in ("checkinst", "check", "convert", "iter"):
+            return "normal"
+        if op == "raise":
+            self.problems.append(f"raise statement {s['id']} executed but the frame went on")
+            return "normal"
+        if op == "call":
+            if s["m"]:
+                self.targets.append("call:" + s["f"][:60])
+            return "normal"
+        if op == "mutate":
+            self.targets.append(s["target"])
+            return "normal"
+        if op == "forget":
+            k = None
+            for e in ev[st["p"]:]:
+                if e[0] == "line":
+                    k = e[2]
+                    break
+            self.unk[(s["id"], o)] = k or st["rec"].ret_kind or "x"
+            return "normal"
+        if op == "return":
+            return "return"
+        if op == "inline":
+            c = self._callee(calls, s)
+            if c is None:
+                self.problems.append(f"inlined callee {s['f']} ({s['callee']['file']}:{s['callee']['line']}) was not entered")
+                return "normal"
+            self._unk_inline(s, o, c)
+            sub = self.walk_function(c, s["body"])
+            if sub in ("raise", "raise-unattributed"):
+                return "raise"
+            return "normal"
+        if op == "branch":
+            nxt = self._next_line(st)
+            if nxt is not None and s["b1_line"] <= nxt <= s["b1_end"]:
+                self.branches[(s["id"], o)] = True
+                return self._sub_block(st, s["b1"], s["b1_line"], s["b1_end"])
+            self.branches[(s["id"], o)] = False
+            if s.get("b2_line") and nxt is not None and s["b2_line"] <= nxt <= s["b2_end"]:
+                return self._sub_block(st, s["b2"], s["b2_line"], s["b2_end"])
+            return "normal"
+        if op == "loop":
+            a, b = s["line"], s["end_line"]
+            n = 0
+            out = "normal"
+            while True:
+                nxt = self._next_line(st)
+                if nxt is None or not (s["body_line"] <= nxt <= s["body_end"]):
+                    break
+                n += 1
+                out = self._sub_block(st, s["body"], s["body_line"], s["body_end"])
+                if out != "normal":
+                    break
+                while st["p"] < len(ev) and (ev[st["p"]][0] == "call" or a <= ev[st["p"]][1] <= b):
+                    st["p"] += 1
+            self.iters[(s["id"], o)] = n
+            return out
+        raise ValueError(op)
+
+    def _next_line(self, st):
+        for e in st["ev"][st["p"]:]:
+            if e[0] == "line":
+                return e[1]
+        return None
+
+    def _sub_block(self, st, stmts, lo, hi):
+        out = self.walk_block(st, stmts, lo, hi)
+        ev, rec = st["ev"], st["rec"]
+        if out in ("normal", "lost"):
+            # trailing statements of the block that the IR dropped
+            while st["p"] < len(ev) and (ev[st["p"]][0] == "call" or lo <= ev[st["p"]][1] <= hi):
+                st["p"] += 1
+            if st["p"] == len(ev) and rec.exc_line is not None and lo <= rec.exc_line <= hi:
+                self.problems.append(f"exception at {rec.key[0]}:{rec.exc_line} inside a block, at no may-raise statement of the IR")
+                self.err_ids = set()
+                return "raise"
+            return "normal"
+        return out
+
+
+# =================================================================================================
+# requests to the extracted model (coq/Model/Setter.v : run_Setter)
+# =================================================================================================
+def hx(s):
+    return s.encode("utf-8", "replace").hex() or "-"
+
+
+def env_words(G):
+    w = [str(len(G["classes"]))]
+    for c, anc in G["classes"].items():
+        w += [hx(c), str(len(anc))] + [hx(a) for a in anc]
+    w += [str(len(G["iter_classes"]))] + [hx(c) for c in G["iter_classes"]]
+    return " ".join(w)
+
+
+def oracle_words(kind, rp, excname):
+    w = [kind or "x"]
+    w.append(str(len(rp.raises)))
+    for (i, o), e in sorted(rp.raises.items()):
+        w += [str(i), str(o), "-" if e == "" else hx(excname if e == "?" else e)]
+    w.append(str(len(rp.branches)))
+    for (i, o), b in sorted(rp.branches.items()):
+        w += [str(i), str(o), "1" if b else "0"]
+    w.append(str(len(rp.iters)))
+    for (i, o), n in sorted(rp.iters.items()):
+        w += [str(i), str(o), str(n)]
+    w.append(str(len(rp.unk)))
+    for (i, o), k in sorted(rp.unk.items()):
+        w += [str(i), str(o), k]
+    return " ".join(w)
+
+
+def subst_self(ir, cls):
+    """IR of a `types=()` property with the class the closure cell holds now"""
+    out = json.loads(json.dumps(ir))
+
+    def walk(l):
+        for s in l:
+            if s["op"] == "checkinst":
+                s["ts"] = [cls if t == "@self" else t for t in s["ts"]]
+            for k in ("body", "b1", "b2"):
+                if k in s:
+                    walk(s[k])
+    walk(out)
+    return out
+
+
+def parse_answer(a):
+    """'ok | t1,t2' / 'err ID HEX | ...' -> (None | (id, exc), [targets])"""
+    head, _, tail = a.partition(" | ")
+    targets = [] if tail.strip() in ("-", "") else [bytes.fromhex(x).decode("utf-8", "replace") for x in tail.strip().split(",")]
+    if head.startswith("err"):
+        _, i, e = head.split()
+        return (int(i), bytes.fromhex(e).decode() if e != "-" else ""), targets
+    if head.strip() == "ok":
+        return None, targets
+    raise ValueError("model answer: " + a[:200])
+
+
+# =================================================================================================
+# collection mutators (model: coq/Model/Coll.v, property C06; here: the snapshot oracle)
+# =================================================================================================
+COLL_KIND = {"Cells": "cell", "Surfaces": "surface", "Materials": "material", "Transforms": "transform",
+             "Universes": "universe"}
+
+
+def coll_invoke(op, coll, args):
+    if op == "append":
+        coll.append(*args)
+    elif op == "append_renumber":
+        coll.append_renumber(*args)
+    elif op == "extend":
+        coll.extend(*args)
+    elif op == "__iadd__":
+        coll.__iadd__(*args)
+    elif op == "__setitem__":
+        coll[args[0]] = args[1]
+    elif op == "__delitem__":
+        del coll[args[0]]
+    elif op == "remove":
+        coll.remove(*args)
+    elif op == "pop":
+        coll.pop(*args)
+    elif op == "clear":
+        coll.clear()
+    else:
+        raise ValueError(op)
+
+
+def coll_candidates(rng, op, coll, lab, snap, blind):
+    """-> list of (invalid-argument class, [arg specs])"""
+    kind = COLL_KIND[type(coll).__name__]
+    other = "surface" if kind != "surface" else "cell"
+    nums = [o.number for o in coll._objects] if not blind else []
+    members = [l for l, o in snap.objs.items() if any(o is m for m in coll._objects)] if not blind else []
+    free = 900 + rng.randrange(90)
+    new_ok = {"t": "new", "kind": kind, "number": free}
+    new_ok2 = {"t": "new", "kind": kind, "number": free + 100}
+    wrong = {"t": "new", "kind": other, "number": free + 1}
+    out = []
+    coll_num = rng.choice(nums) if nums else None
+    new_coll = {"t": "new", "kind": kind, "number": coll_num} if coll_num is not None else None
+    lit_bad = rng.choice([L(5), L("a"), L(None), L(2.5), {"t": "list", "items": []}])
+    if op in ("append", "remove"):
+        out += [("wrong type", [wrong]), ("wrong type", [lit_bad])]
+        if op == "append":
+            if new_coll:
+                out.append(("collision", [new_coll]))
+            if members:
+                out.append(("collision", [O(rng.choice(members))]))
+        else:
+            out.append(("structurally illegal", [new_ok]))          # not a member
+    elif op == "append_renumber":
+        out += [("wrong type", [wrong]), ("wrong type", [lit_bad]), ("wrong type", [new_ok, L("a")]),
+                ("out of range", [new_ok, L(0)]), ("out of range", [new_ok, L(-1)]), ("wrong type", [new_ok, L(1.5)])]
+        if members:
+            out.append(("collision", [O(rng.choice(members))]))
+    elif op in ("extend", "__iadd__"):
+        out += [("wrong type", [lit_bad]), ("wrong type", [L(5)]),
+                ("structurally illegal", [{"t": "list", "items": [new_ok, wrong]}]),
+                ("structurally illegal", [{"t": "list", "items": [new_ok, lit_bad]}]),
+                ("collision", [{"t": "list", "items": [new_ok, {"t": "new", "kind": kind, "number": free}]}]),
+                ("collision", [{"t": "list", "items": [new_ok, new_ok2, {"t": "new", "kind": kind, "number": free + 100}]}])]
+        if new_coll:
+            out.append(("collision", [{"t": "list", "items": [new_ok, new_coll]}]))
+            out.append(("collision", [{"t": "list", "items": [new_coll, new_ok]}]))
+        if members:
+            out.append(("collision", [{"t": "list", "items": [new_ok, O(rng.choice(members))]}]))
+    elif op == "__setitem__":
+        key = L(coll_num if coll_num is not None else 1)
+        out += [("wrong type", [key, wrong]), ("wrong type", [key, lit_bad]), ("wrong type", [L("a"), new_ok]),
+                ("wrong type", [L(1.5), new_ok])]
+        if new_coll and len(nums) > 1:
+            othern = rng.choice([n for n in nums if n != coll_num])
+            out.append(("collision", [key, {"t": "new", "kind": kind, "number": othern}]))
+    elif op in ("__delitem__", "pop"):
+        if op == "__delitem__":
+            out += [("out of range", [L(987654)]), ("wrong type", [L("a")]), ("wrong type", [L(1.5)]), ("wrong type", [L(None)])]
+        else:
+            out += [("wrong type", [L("a")]), ("wrong type", [L(1.5)]), ("wrong type", [new_ok])]
+    elif op == "clear":
+        out.append(("no-argument", []))
+    return out
+
+
+# =================================================================================================
+# invalid-argument generators for the translated setters
+# =================================================================================================
+def _labels_of(snap, cls):
+    return [l for l, o in snap.objs.items() if type(o).__name__ == cls or any(c.__name__ == cls for c in type(o).__mro__)]
+
+
+def _mode_particles(snap):
+    pr = snap.objs["problem"]
+    return sorted(p.name for p in pr.mode.particles)
+
+
+def special_candidates(rng, e, lab, snap, blind):
+    import montepy
+    key = e.base
+    obj = snap.objs[lab]
+    out = []
+    P = lambda n: {"t": "particle", "name": n}        # noqa: E731
+    LIST = lambda *xs: {"t": "list", "items": list(xs)}   # noqa: E731
+    cells = _labels_of(snap, "Cell")
+    surfs = _labels_of(snap, "Surface")
+    if key in ("Mode.set", "MCNP_Problem.set_mode"):
+        out += [("structurally illegal", [LIST(L("n"), L("zz"))]), ("structurally illegal", [LIST(L("zz"))]),
+                ("structurally illegal", [L("n zz")]), ("structurally illegal", [LIST(L("n"), L(5))]),
+                ("structurally illegal", [LIST(P("NEUTRON"), L("p"))]), ("structurally illegal", [LIST(L("p"), P("NEUTRON"))]),
+                ("structurally illegal", [{"t": "set", "items": [L("n"), L("qq")]}]),
+                ("structurally illegal", [LIST(P("NEUTRON"), L(None))]), ("wrong type", [{"t": "tuple", "items": [L("n")]}]),
+                ("valid", [LIST(L("n"), L("p"))]), ("valid", [L("n")])]
+    elif key == "Mode.add":
+        out += [("structurally illegal", [L("zz")]), ("structurally illegal", [L("")]), ("valid", [L("e")])]
+    elif key == "Mode.remove":
+        out += [("structurally illegal", [L("zz")]), ("particle not in mode", [L("h")]), ("particle not in mode", [P("PROTON")])]
+    elif key == "Universe.claim":
+        if cells and surfs:
+            out += [("structurally illegal", [LIST(O(rng.choice(cells)), O(rng.choice(surfs)))]),
+                    ("structurally illegal", [LIST(O(rng.choice(cells)), L(5))]),
+                    ("wrong type", [O(rng.choice(surfs))]), ("valid", [LIST(O(rng.choice(cells)))])]
+    elif key == "Cells.set_equal_importance":
+        c = O(rng.choice(cells)) if cells else L(1)
+        out += [("out of range", [L(-1.0), LIST()]), ("wrong type", [L("x"), LIST()]), ("wrong type", [L(2.0), L(5)]),
+                ("structurally illegal", [L(2.0), LIST(c, L("x"))]), ("out of range", [L(2.0), LIST(L(987654))]),
+                ("structurally illegal", [L(2.0), LIST(L(987654), c)]), ("out of range", [L(-2.0), LIST(c)]),
+                ("out of range", [{"t": "float", "v": "nan"}, LIST()]), ("wrong type", [L(None), LIST(c)]),
+                ("valid", [L(2.0), LIST(c)])]
+    elif key == "MCNP_Problem.cells":
+        n = 800 + rng.randrange(50)
+        out += [("collision", [{"t": "cells", "items": [{"t": "new", "kind": "cell", "number": n},
+                                                        {"t": "new", "kind": "cell", "number": n + 1}],
+                                "renumber": [[1, n]]}])]
+        if cells:
+            c = O(rng.choice(cells))
+            out += [("collision", [LIST(c, c)])]
+            if surfs:
+                out += [("structurally illegal", [LIST(c, O(rng.choice(surfs)))])]
+            out += [("structurally illegal", [LIST(c, L(5))])]
+    elif key == "MCNP_Problem.materials":
+        mats = _labels_of(snap, "Material")
+        if mats:
+            m = O(rng.choice(mats))
+            out += [("collision", [LIST(m, m)]), ("structurally illegal", [LIST(m, L(5))])]
+            if cells:
+                out += [("structurally illegal", [LIST(m, O(rng.choice(cells)))])]
+    elif key == "UnitHalfSpace.divider" and not blind:
+        cell = getattr(obj, "_cell", None)
+        if cell is not None:
+            if not obj.is_cell:
+                others = [s.number for s in cell.surfaces if s is not obj.divider]
+                if others:
+                    out.append(("collision", [{"t": "new", "kind": "surface", "number": rng.choice(others)}]))
+                if cells:
+                    out.append(("wrong type", [O(rng.choice(cells))]))
+            else:
+                others = [c.number for c in cell.complements if c is not obj.divider]
+                if others:
+                    out.append(("collision", [{"t": "new", "kind": "cell", "number": rng.choice(others)}]))
+                if surfs:
+                    out.append(("wrong type", [O(rng.choice(surfs))]))
+    elif key == "Cell.geometry" and not blind:
+        nums = [s.number for s in obj.surfaces]
+        if nums:
+            free = 700 + rng.randrange(90)
+            leaf = lambda spec, side=True: {"t": "hs", "op": "leaf", "side": side, "div": spec}   # noqa: E731
+            good = leaf({"t": "new", "kind": "surface", "number": free}, False)
+            for k in range(1, rng.choice([1, 3, 4])):
+                good = {"t": "hs", "op": "and", "a": good, "b": leaf({"t": "new", "kind": "surface", "number": free + 100 * k}, False)}
+            bad = leaf({"t": "new", "kind": "surface", "number": rng.choice(nums)})
+            out += [("collision", [{"t": "hs", "op": "and", "a": good, "b": bad}]),
+                    ("collision", [{"t": "hs", "op": "or", "a": bad, "b": good}]),
+                    ("collision", [bad])]
+    elif key == "Importance.__setitem__":
+        mode = _mode_particles(snap) if not blind else ["NEUTRON"]
+        outside = [p.name for p in montepy.particle.Particle if p.name not in mode]
+        inm = P(rng.choice(mode)) if mode else P("NEUTRON")
+        if e.kind == "alias_set":
+            out += [("out of range", [L(-1.0)]), ("wrong type", [L("x")]), ("wrong type", [L(None)]),
+                    ("out of range", [{"t": "float", "v": "nan"}]), ("valid", [L(2.0)])]
+        else:
+            out += [("particle not in mode", [P(rng.choice(outside)), L(1.0)]), ("out of range", [inm, L(-1.0)]),
+                    ("wrong type", [inm, L("x")]), ("wrong type", [L("n"), L(1.0)]), ("wrong type", [L(None), L(1.0)]),
+                    ("out of range", [inm, {"t": "float", "v": "-inf"}]), ("wrong type", [inm, {"t": "complex", "re": 1.0, "im": 1.0}]),
+                    ("valid", [inm, L(3.0)])]
+    elif key == "Importance.__delitem__":
+        if e.kind != "alias_del":
+            out += [("wrong type", [L("n")]), ("wrong type", [L(5)]), ("particle not in mode", [P("PROTON")])]
+    elif key == "CellDataPrintController.__setitem__":
+        out += [("wrong type", [L("imp"), L(5)]), ("structurally illegal", [L("zzz"), L(True)]), ("wrong type", [L(5), L(True)]),
+                ("wrong type", [L(None), L(False)]), ("valid", [L("vol"), L(True)])]
+    elif key == "ThermalScatteringLaw.thermal_scattering_laws":
+        out += [("structurally illegal", [LIST(L("lwtr.10t"), L(5))]), ("structurally illegal", [LIST(L(None))]),
+                ("valid", [LIST(L("grph.20t"))])]
+    elif key == "MCNP_Problem.mcnp_version":
+        out += [("out of range", [{"t": "tuple", "items": [L(5), L(1), L(0)]}]), ("wrong type", [L("6.2")]),
+                ("structurally illegal", [{"t": "tuple", "items": [L(6), L(2)]}]), ("valid", [{"t": "tuple", "items": [L(6), L(2), L(0)]}])]
+    elif key == "Fill.universes":
+        out += [("structurally illegal", [{"t": "array", "items": [L(1), L(2)], "shape": [2], "dtype": "int"}]),
+                ("structurally illegal", [{"t": "array", "items": [L(1.0)] * 8, "shape": [2, 2, 2], "dtype": "float"}]),
+                ("structurally illegal", [{"t": "array", "items": [L(None)] * 8, "shape": [2, 2, 2], "dtype": "object"}])]
+    elif key in ("Transform.displacement_vector", "Transform.rotation_matrix"):
+        out += [("structurally illegal", [{"t": "array", "items": [L(1.0), L(2.0)], "shape": [2], "dtype": "float"}]),
+                ("structurally illegal", [{"t": "array", "items": [L(1.0)] * 12, "shape": [12], "dtype": "float"}]),
+                ("structurally illegal", [{"t": "array", "items": [L("a"), L("b"), L("c")], "shape": [3], "dtype": "str"}])]
+    return out
+
+
+def candidates(rng, e, lab, snapA, snapB, blind):
+    out = list(special_candidates(rng, e, lab, snapA, blind))
+    n = e.nargs()
+    if n == 0:
+        return [("no-argument", [])]
+    if n == 1 or (n == 2 and e.ndefaults == 1):
+        for s in rng.sample(type_pool(rng, snapA), 3):
+            out.append(("wrong type", [s]))
+        for s in rng.sample(range_pool(), 2):
+            out.append(("out of range", [s]))
+        if e.name == "number" and not blind:
+            obj = snapA.objs[lab]
+            pr = snapA.objs["problem"]
+            for coll in (pr.cells, pr.surfaces, pr.materials, pr.transforms, pr.universes):
+                if any(o is obj for o in coll):
+                    for o in coll:
+                        if o is not obj:
+                            out.append(("collision", [L(o.number)]))
+        if not blind and e.kind in ("setter", "generated"):
+            cur = _read_both(e.name, lab, snapA, snapB)
+            if cur is not None:
+                out.append(("valid", [cur]))
+                for c in corruptions(rng, cur):
+                    out.append(("structurally illegal", [c]))
+    return out
+
+
+def _read_both(name, lab, snapA, snapB):
+    """current value of the attribute, read on A and on B alike (a read is an observation)"""
+    vals = []
+    for snap in (snapA, snapB):
+        o = snap.objs.get(lab)
+        if o is None:
+            return None
+        try:
+            with warnings.catch_warnings():
+                warnings.simplefilter("ignore")
+                vals.append(getattr(o, name))
+        except Exception:
+            return None
+    labels = {id(o): l for l, o in snapA.objs.items()}
+    try:
+        return spec_of(vals[0], labels)
+    except Exception:
+        return None
+
+
+class Meta(dict):
+    """keys a later version of edits.gen_program may ask for and this module does not know: empty"""
+
+    def __missing__(self, k):
+        return {}
+
+
+def meta_of(pr):
+    """what edits.gen_program needs to know about a problem"""
+    unis, fills, laws = {}, {}, {}
+    for c in pr.cells:
+        try:
+            if c.universe is not None and c.universe.number != 0:
+                unis[c.number] = c.universe.number
+            if c.fill.universe is not None:
+                fills[c.number] = c.fill.universe.number
+        except Exception:
+            pass
+    for m in pr.materials:
+        try:
+            if m.thermal_scattering is not None:
+                laws[m.number] = list(m.thermal_scattering.thermal_scattering_laws)
+        except Exception:
+            pass
+    return Meta({"cells": [c.number for c in pr.cells], "surfaces": [s.number for s in pr.surfaces],
+                 "materials": [m.number for m in pr.materials], "transforms": [t.number for t in pr.transforms],
+                 "universes": unis, "fills": fills, "material_laws": laws,
+                 "particles": [p.value.lower() for p in sorted(pr.mode.particles, key=lambda p: p.name)],
+                 "surface_constants": {s.number: list(s.surface_constants) for s in pr.surfaces}})
+
+
+# =================================================================================================
+# a pair of problems driven in lock step
+# =================================================================================================
+class Desync(Exception):
+    pass
+
+
+class Session:
+    def __init__(self, text, env):
+        self.text = text
+        self.env = env                      # dict(G, E, keys, envw)
+        with warnings.catch_warnings():
+            warnings.simplefilter("ignore")
+            self.A = mp.read_problem(text, "c14.i")
+            self.B = mp.read_problem(text, "c14.i")
+        self.hA, self.hB = ED.Handles(self.A), ED.Handles(self.B)
+        self.snapA, self.snapB = Snap(self.A), Snap(self.B)
+        self.steps = []
+        self.pending = []                   # model requests of the traced calls
+        self.n_rejected = 0
+        self.edits_after_reject = 0
+
+    # ---- steps -----------------------------------------------------------------------------------
+    def apply_edit(self, edit):
+        res = []
+        for h in (self.hA, self.hB):
+            try:
+                with warnings.catch_warnings():
+                    warnings.simplefilter("ignore")
+                    ok, _ = ED.apply(h, edit)
+                res.append("applied" if ok else "skipped")
+            except Exception as e:
+                res.append(type(e).__name__)
+        self.steps.append({"op": "edit", "edit": edit, "result": res[0]})
+        if res[0] != res[1]:
+            raise Desync(f"valid edit {edit} behaves differently on A and B: {res}")
+        if self.n_rejected:
+            self.edits_after_reject += 1
+        return res[0]
+
+    def _call_on(self, step, snap, trace):
+        """-> (exception or None, Tracer or None, values)"""
+        objs = snap.objs
+        obj = objs[step["label"]]
+        vals = [build(a, objs) for a in step["args"]]
+        tr = None
+        if step["op"] == "coll":
+            fn = lambda: coll_invoke(step["mut"], obj, vals)      # noqa: E731
+        else:
+            e = self.env["E"][step["entry"]]
+            if e.fixed is not None:
+                vals = [build(e.fixed, objs)] + vals
+            fn = lambda: invoke(e, obj, vals)                     # noqa: E731
+            if trace:
+                tr = Tracer(self.env["keys"])
+        with warnings.catch_warnings():
+            warnings.simplefilter("ignore")
+            if tr is not None:
+                exc = tr.run(fn)
+            else:
+                exc = None
+                try:
+                    fn()
+                except Exception as e2:       # noqa
+                    exc = e2
+        return exc, tr, vals
+
+    def call(self, step, trace=True):
+        """the call on A; when A accepts it, on B too.  -> class name of the exception or None"""
+        latch = None
+        if step["op"] == "call":
+            e = self.env["E"][step["entry"]]
+            if e.kind == "generated" and e.decl["types"][0] == "latch":
+                latch = latch_state(self.snapA.objs[step["label"]], e.name)
+        try:
+            exc, tr, vals = self._call_on(step, self.snapA, trace)
+        except (KeyError, ValueError, TypeError, AttributeError) as e0:
+            return "unbuildable:" + type(e0).__name__
+        name = type(exc).__name__ if exc is not None else None
+        step = dict(step, raised=name)
+        if tr is not None:
+            self._correspond(step, tr, exc, vals, latch)
+        if exc is None:
+            try:
+                excB, _, _ = self._call_on(step, self.snapB, False)
+            except Exception as e0:
+                raise Desync(f"accepted call cannot be repeated on B: {type(e0).__name__}")
+            if excB is not None:
+                raise Desync(f"call accepted on A raises {type(excB).__name__} on B")
+        else:
+            self.n_rejected += 1
+        self.steps.append(step)
+        return name
+
+    def _correspond(self, step, tr, exc, vals, latch):
+        e = self.env["E"][step["entry"]]
+        root = tr.find((e.file, e.first_line))
+        rp = Replay()
+        if root is None:
+            rp.problems.append(f"the function of {e.base} ({e.file}:{e.first_line}) was not entered")
+            walked = "noroot"
+        else:
+            walked = rp.walk_function(root, e.ir)
+        ir = subst_self(e.ir, latch) if latch else e.ir
+        kind = kind_of(vals[0]) if vals else "n"
+        req = ("exec " + self.env["envw"] + " " + oracle_words(kind, rp, type(exc).__name__ if exc is not None else "")
+               + " " + " ".join(TS.wire_block(ir)))
+        self.pending.append({"req": req, "step": step, "prior": len(self.steps), "real": type(exc).__name__ if exc is not None else None,
+                             "walk": walked, "err_ids": sorted(rp.err_ids) if rp.err_ids is not None else None,
+                             "declared": rp.err_declared, "targets": rp.targets, "problems": rp.problems, "text": self.text,
+                             "site": rp.err_site})
+
+    # ---- comparison --------------------------------------------------------------------------------
+    def compare(self, do_write=True):
+        """-> None or a difference"""
+        beforeA = self.snapA
+        self.snapA, self.snapB = Snap(self.A), Snap(self.B)
+        d = self.snapA.diff(self.snapB)
+        if d:
+            return {"kind": "attribute-reads", "diff": [list(x) for x in d]}
+        if do_write:
+            wa, wb = written(self.A, "c14a.o"), written(self.B, "c14b.o")
+            if wa != wb:
+                import difflib
+                dl = [l for l in difflib.unified_diff(wb.splitlines(), wa.splitlines(), "without the rejected call",
+                                                      "with the rejected call", lineterm="", n=0)][:12]
+                return {"kind": "written-bytes", "diff": dl}
+        self.direct_equal = beforeA.data == self.snapA.data
+        return None
+
+
+def replay_case(case, env, want_pending=False):
+    """re-run a case: the prior steps, then the call, then the comparison.  -> (difference or None, info)"""
+    ses = Session(case["text"], env)
+    blind = case.get("blind", False)
+    try:
+        for st in case["steps"]:
+            if st["op"] == "edit":
+                ses.apply_edit(st["edit"])
+            else:
+                ses.call({k: v for k, v in st.items() if k != "raised"}, trace=False)
+            if not blind:
+                ses.compare()
+        name = ses.call({k: v for k, v in case["call"].items() if k != "raised"}, trace=want_pending)
+    except Desync as e:
+        return None, {"desync": str(e)}
+    info = {"raised": name, "pending": ses.pending}
+    if name is None or (isinstance(name, str) and name.startswith("unbuildable")):
+        return None, info
+    for st in case.get("after", []):
+        try:
+            ses.apply_edit(st["edit"])
+        except Desync as e:
+            return {"kind": "later-edit", "diff": [str(e)]}, info
+    return ses.compare(), info
+
+
+def shrink_case(case, env):
+    cur = dict(case)
+    changed = True
+    while changed:
+        changed = False
+        for i in range(len(cur["steps"]) - 1, -1, -1):
+            cand = dict(cur, steps=cur["steps"][:i] + cur["steps"][i + 1:])
+            try:
+                d, _ = replay_case(cand, env)
+            except Exception:
+                d = None
+            if d is not None:
+                cur = cand
+                changed = True
+                break
+    if cur.get("after"):
+        cand = dict(cur, after=[])
+        try:
+            d, _ = replay_case(cand, env)
+        except Exception:
+            d = None
+        if d is not None:
+            cur = cand
+    return cur
+
+
+# =================================================================================================
+# independent enumeration of the public setters (introspection of the imported package)
+# =================================================================================================
+def runtime_setters():
+    """(class, property, 'set'|'del') -> (file, first line, function name) for every public property with a
+    setter / deleter defined by a class of montepy outside input_parser"""
+    import importlib
+    import pkgutil
+    import inspect
+    import montepy
+    out = {}
+    for m in pkgutil.walk_packages(montepy.__path__, "montepy."):
+        if ".input_parser" in m.name or m.name.endswith("__main__") or "._scripts" in m.name:
+            continue
+        try:
+            mod = importlib.import_module(m.name)
+        except Exception:
+            continue
+        for _, cls in inspect.getmembers(mod, inspect.isclass):
+            if cls.__module__ != m.name:
+                continue
+            for name, attr in cls.__dict__.items():
+                if isinstance(attr, property) and not name.startswith("_"):
+                    for kind, f in (("set", attr.fset), ("del", attr.fdel)):
+                        if f is not None:
+                            out[(cls.__name__, name, kind)] = (_rel(f.__code__.co_filename), f.__code__.co_firstlineno,
+                                                               f.__code__.co_name)
+    return out
+
+
+def enumeration_check(G, E):
+    """every runtime setter / deleter is a translated entry, a generated deleter, or an Importance alias"""
+    rt_ = runtime_setters()
+    missing = []
+    classes = {"translated": 0, "generated": 0, "generated deleter": 0, "importance alias": 0}
+    tmpl_del = {G["templates"][n]["deleter_line"] for n in G["templates"]}
+    for (cls, name, kind), (file, line, fname) in sorted(rt_.items()):
+        key = f"{cls}.{name}" + (".del" if kind == "del" else "")
+        e = E.get(key)
+        if e is not None and e.kind in ("setter", "deleter") and (e.file, e.first_line) == (file, line):
+            classes["translated"] += 1
+        elif e is not None and e.kind == "generated" and kind == "set" and (file, line) == (e.file, e.first_line):
+            classes["generated"] += 1
+        elif kind == "del" and file == "utilities.py" and line in tmpl_del:
+            classes["generated deleter"] += 1
+        elif e is not None and e.kind in ("alias_set", "alias_del") and file == "data_inputs/importance.py" and fname == "closure":
+            classes["importance alias"] += 1
+        else:
+            missing.append(f"{key} ({file}:{line} {fname})")
+    return rt_, classes, missing
+
+
+# =================================================================================================
+# the check
+# =================================================================================================
+def gen_text(rng):
+    if rng.random() < 0.35:
+        return RICH, "rich"
+    P = gen.gen_problem(rng, dict(max_cells=6))
+    Lo = gen.layout_opts(rng, wild=False, width=78)
+    return gen.render(rng, P, Lo), "generated"
+
+
+def make_env():
+    G = TS.load()
+    E = load_entries(G)
+    return {"G": G, "E": E, "keys": ir_functions(G), "envw": env_words(G)}
+
+
+def schedule_of(env, rng, focus=()):
+    E = env["E"]
+    sched = []
+    for key, e in E.items():
+        if e.kind in ("alias_set", "alias_del"):
+            continue
+        sched.append(("call", key))
+    aliases = [k for k, e in E.items() if e.kind in ("alias_set", "alias_del")]
+    sched += [("call", k) for k in rng.sample(aliases, 10)]
+    for cls in COLL_KIND:
+        for op in env["G"]["coll_mutators"]:
+            sched.append(("coll", cls + "." + op))
+    rng.shuffle(sched)
+    # setters the analysis newly rejects are searched first and more often (lesson iii)
+    front = [("call", k) for k in focus if k in E] * 6
+    return front + sched
+
+
+class Stats:
+    def __init__(self):
+        self.by_entry = {}
+        self.classes = {}
+        self.exceptions = {}
+        self.argkinds = {}
+        self.rounds = {"rich": 0, "generated": 0, "blind": 0, "probe": 0}
+        self.sizes = {}
+        self.n = {"steps": 0, "edits": 0, "rejected": 0, "accepted": 0, "unbuildable": 0, "comparisons": 0,
+                  "written_compared": 0, "later_comparisons": 0, "direct_before_after_equal": 0,
+                  "direct_before_after_differs_but_control_agrees": 0, "desync": 0, "traced": 0, "no_receiver": 0}
+
+    def call(self, key, cls, name, args):
+        d = self.by_entry.setdefault(key, {"rejected": 0, "accepted": 0, "classes": {}})
+        if name is None:
+            d["accepted"] += 1
+            self.n["accepted"] += 1
+        else:
+            d["rejected"] += 1
+            d["classes"][cls] = d["classes"].get(cls, 0) + 1
+            self.n["rejected"] += 1
+            self.classes[cls] = self.classes.get(cls, 0) + 1
+            self.exceptions[name] = self.exceptions.get(name, 0) + 1
+        for a in args:
+            k = spec_kind(a)
+            self.argkinds[k] = self.argkinds.get(k, 0) + 1
+
+
+def one_round(ctx, env, rng, sched, stats, failures, seen_fail, deadline):
+    text, origin = gen_text(rng)
+    blind = rng.random() < 0.3
+    try:
+        ses = Session(text, env)
+    except Exception:
+        return None
+    stats.rounds[origin] += 1
+    stats.rounds["blind" if blind else "probe"] += 1
+    nobj = len(ses.snapA.data)
+    stats.sizes[nobj // 25 * 25] = stats.sizes.get(nobj // 25 * 25, 0) + 1
+    if ses.snapA.data != ses.snapB.data:
+        ctx.broken_obligations.append({"obligation": "two reads of one text give equal snapshots", "detail": ses.snapA.diff(ses.snapB)[:3]})
+        return ses
+    meta = meta_of(ses.A)
+    nsteps = rng.choice([6, 10, 14, 20])
+    E = env["E"]
+    try:
+        for _ in range(nsteps):
+            if time.time() > deadline:
+                break
+            stats.n["steps"] += 1
+            if rng.random() < 0.25:
+                try:
+                    prog = ED.gen_program(rng, meta, n=1)
+                except (KeyError, IndexError, ValueError):
+                    prog = []
+                if prog:
+                    ses.apply_edit(prog[0])
+                    stats.n["edits"] += 1
+                    if not blind:
+                        d = ses.compare(do_write=True)
+                        stats.n["comparisons"] += 1
+                        if ses.n_rejected:
+                            stats.n["later_comparisons"] += 1
+                        if d is not None:
+                            # A and B differ after a valid edit: an earlier rejected call shows only now
+                            _report_later(ctx, env, ses, d, failures, seen_fail, stats)
+                            return ses
+                continue
+            # a call with an invalid argument
+            step = None
+            for _try in range(8):
+                if not sched:
+                    break
+                op, key = sched.pop(0)
+                sched.append((op, key))
+                if op == "call":
+                    e = E[key]
+                    labs = receivers(e, ses.snapA)
+                    if not labs:
+                        stats.n["no_receiver"] += 1
+                        continue
+                    lab = rng.choice(labs)
+                    cands = candidates(rng, e, lab, ses.snapA, ses.snapB, blind)
+                    if not cands:
+                        continue
+                    inval = [c for c in cands if c[0] != "valid"]
+                    pick = rng.choice(inval if (inval and rng.random() < 0.85) else cands)
+                    step = {"op": "call", "entry": key, "label": lab, "args": pick[1], "cls": pick[0]}
+                else:
+                    cname, mut = key.split(".", 1)
+                    labs = [l for l, o in ses.snapA.objs.items() if type(o).__name__ == cname]
+                    if not labs:
+                        stats.n["no_receiver"] += 1
+                        continue
+                    lab = rng.choice(labs)
+                    cands = coll_candidates(rng, mut, ses.snapA.objs[lab], lab, ses.snapA, blind)
+                    if not cands:
+                        continue
+                    pick = rng.choice(cands)
+                    step = {"op": "coll", "mut": mut, "entry": key, "label": lab, "args": pick[1], "cls": pick[0]}
+                break
+            if step is None:
+                continue
+            prior = list(ses.steps)
+            name = ses.call(step, trace=True)
+            if isinstance(name, str) and name.startswith("unbuildable"):
+                stats.n["unbuildable"] += 1
+                continue
+            if step["op"] == "call":
+                stats.n["traced"] += 1
+            stats.call(step["entry"], step["cls"], name, step["args"])
+            ctx.count_case((step["entry"], step["cls"], [spec_kind(a) for a in step["args"]], name), nontrivial=name is not None)
+            if name is None:
+                if not blind:
+                    ses.snapA, ses.snapB = Snap(ses.A), Snap(ses.B)     # labels of new members
+                continue
+            if blind:
+                continue
+            d = ses.compare(do_write=True)
+            stats.n["comparisons"] += 1
+            stats.n["written_compared"] += 1
+            if d is None:
+                if ses.direct_equal:
+                    stats.n["direct_before_after_equal"] += 1
+                else:
+                    stats.n["direct_before_after_differs_but_control_agrees"] += 1
+                if len(ctx.cov["samples"]) < 6 and rng.random() < 0.05:
+                    ctx.sample({"call": ses.steps[-1], "outcome": "raised, problem unchanged"})
+                continue
+            case = {"text": text, "blind": False, "steps": prior, "call": ses.steps[-1] if ses.steps and ses.steps[-1].get("entry") == step["entry"] else step}
+            _report(ctx, env, case, d, failures, seen_fail)
+            return ses
+        if blind and ses.n_rejected:
+            d = ses.compare(do_write=True)
+            stats.n["comparisons"] += 1
+            stats.n["written_compared"] += 1
+            stats.n["later_comparisons"] += 1 if ses.edits_after_reject else 0
+            if d is not None:
+                _report_later(ctx, env, ses, d, failures, seen_fail, stats, blind=True)
+    except Desync as e:
+        stats.n["desync"] += 1
+        failures.setdefault("_desync", []).append(str(e))
+    return ses
+
+
+def _report(ctx, env, case, d, failures, seen_fail):
+    key = (case["call"].get("entry"), case["call"].get("cls"))
+    n = seen_fail.get(key, 0)
+    seen_fail[key] = n + 1
+    if n < 2:
+        try:
+            case = shrink_case(case, env)
+            d2, _ = replay_case(case, env)
+            if d2 is not None:
+                d = d2
+        except Exception:
+            pass
+    fail = {"kind": d["kind"], "case": case, "diff": d["diff"], "entry": case["call"].get("entry"),
+            "class": case["call"].get("cls"), "raised": case["call"].get("raised")}
+    failures.setdefault(key[0], []).append(fail)
+    ctx.fail(fail)
+
+
+def _report_later(ctx, env, ses, d, failures, seen_fail, stats, blind=False):
+    """A and B differ at a point where no call was just rejected: find the rejected call that did it"""
+    steps = ses.steps
+    idx = [i for i, s in enumerate(steps) if s["op"] != "edit" and s.get("raised")]
+    for i in idx:
+        case = {"text": ses.text, "blind": blind, "steps": steps[:i], "call": steps[i],
+                "after": [s for s in steps[i + 1:] if s["op"] == "edit"]}
+        try:
+            dd, _ = replay_case(case, env)
+        except Exception:
+            dd = None
+        if dd is not None:
+            _report(ctx, env, case, dd, failures, seen_fail)
+            return
+    if idx:
+        case = {"text": ses.text, "blind": blind, "steps": steps[:idx[-1]], "call": steps[idx[-1]],
+                "after": [s for s in steps[idx[-1] + 1:] if s["op"] == "edit"], "note": "not reproduced by any single rejected call"}
+        _report(ctx, env, case, d, failures, seen_fail)
+
+
+def check_pending(ctx, env, pending, failing, stats, sample):
+    """the model against the traced real calls"""
+    if not pending:
+        return {"requests": 0}
+    reqs = [p["req"] for p in pending]
+    answers = vlib.model_ask("Setter", reqs)
+    bad = []
+    agree = 0
+    E = env["E"]
+    for p, a in zip(pending, answers):
+        ctx.cov["programs"] += 1
+        ctx.cov["disagreements_checked"] += 1
+        why = []
+        try:
+            res, targets = parse_answer(a)
+        except Exception:
+            why.append("model answer unreadable: " + a[:100])
+            res, targets = None, []
+        if p["problems"]:
+            why += p["problems"]
+        real = p["real"]
+        if (res is None) != (real is None):
+            why.append(f"model says {'rejected at statement %d with %s' % res if res else 'accepted'}, the code "
+                       f"{'raises ' + real if real else 'accepts'}")
+        elif res is not None:
+            if p["err_ids"] is not None and res[0] not in p["err_ids"]:
+                why.append(f"model raises at statement {res[0]}, the code at one of {p['err_ids']} ({p['site']})")
+            if res[1] != real:
+                why.append(f"model raises {res[1]}, the code {real}")
+        if targets != p["targets"]:
+            why.append(f"model executes mutations {targets}, the trace shows {p['targets']}")
+        base = E[p["step"]["entry"]].base
+        if real is not None and base not in failing and (targets or p["targets"]):
+            why.append("a checks-first setter raised after a mutation statement (contradicts C14_checks_first)")
+        if why:
+            bad.append({"entry": p["step"]["entry"], "why": why[:4], "step": p["step"], "prior_steps": p["prior"],
+                        "text": p["text"]})
+        else:
+            agree += 1
+    nx, xbad = vlib.vm_crosscheck("Setter", [q for q in reqs if len(q) < 20000], [a for q, a in zip(reqs, answers) if len(q) < 20000],
+                                  sample=sample, seed=ctx.seed)
+    if xbad:
+        ctx.broken_obligations.append({"obligation": "extraction cross-check Setter", "detail": [x[:300] for x in xbad[:2]]})
+    if bad:
+        ctx.broken_obligations.append({"obligation": "correspondence Setter.exec vs traced real setter calls",
+                                       "detail": {"n": len(bad), "entries": sorted({b["entry"] for b in bad})[:12], "first": bad[0]}})
+    return {"requests": len(reqs), "agree": agree, "disagree": len(bad), "vm_crosschecked": nx}
+
+
+def analysis_of(env):
+    """checks_first of every table entry, by the extracted model"""
+    G = env["G"]
+    names, reqs = [], []
+    for s in G["setters"]:
+        names.append(f"{s['cls']}.{s['name']}" + (".del" if s["kind"] == "deleter" else ""))
+        reqs.append("an " + env["envw"] + " " + s["wire"])
+    for g in G["generated"]:
+        names.append(f"{g['cls']}.{g['name']}")
+        reqs.append("an " + env["envw"] + " " + g["wire"])
+    ans = vlib.model_ask("Setter", reqs)
+    return {n for n, a in zip(names, ans) if a != "1"}, reqs, ans
+
+
+def may_raise_entry(ir):
+    for s in ir:
+        if s["op"] in MAY_RAISE_OPS or (s["op"] == "call" and s["r"]):
+            return True
+        for k in ("body", "b1", "b2"):
+            if k in s and may_raise_entry(s[k]):
+                return True
+    return False
+
+
+def run(ctx):
+    t0 = time.time()
+    quick = ctx.tier == "quick"
+    try:
+        env = make_env()
+    except TS.TranslateError as e:
+        ctx.broken_obligations.append({"obligation": "translate_setters: the source has a shape the translator does not know "
+                                                     "(fail closed)", "detail": str(e)})
+        ctx.prove()
+        return ctx.finish(TRUSTED, ASSUMPTIONS, RULE)
+    proved = ctx.prove()
+    G, E = env["G"], env["E"]
+    # the analysis on the tables of the working tree: which setters fail it (names the witnesses when the
+    # obligation C14_excluded_exact does not hold any more)
+    failing, an_reqs, an_ans = analysis_of(env)
+    new_failing = sorted(failing - set(EXCLUDED))
+    stale = sorted(set(EXCLUDED) - failing)
+    if new_failing:
+        ctx.broken_obligations.append({"obligation": "C14_all_setters (forallb checks_first Gen.setter_table)",
+                                       "detail": {"setters that mutate before a statement that may raise": new_failing}})
+    if stale and not proved:
+        ctx.broken_obligations.append({"obligation": "C14_excluded_exact", "detail": {"excluded setters that are checks-first now "
+                                       "(repaired? remove them from Properties/C14.v and close their finding)": stale}})
+    # the source enumerated twice
+    rt_, enum_classes, missing = enumeration_check(G, E)
+    if missing:
+        ctx.broken_obligations.append({"obligation": "every public property setter / deleter of the package is translated",
+                                       "detail": missing[:10]})
+    stats = Stats()
+    failures, seen_fail = {}, {}
+    pending = []
+    # corpus first
+    corpus_failed = []
+    cdir = os.path.join(vlib.VERIF, "corpus", PROP)
+    if os.path.isdir(cdir):
+        for f in sorted(os.listdir(cdir)):
+            if f.endswith(".json"):
+                with open(os.path.join(cdir, f)) as fh:
+                    case = json.load(fh)
+                c = case.get("case", case)
+                try:
+                    d, info = replay_case(c, env, want_pending=True)
+                    pending += info.get("pending", [])
+                except Exception as e:
+                    d = {"kind": "replay-error", "diff": [type(e).__name__ + ": " + str(e)[:200]]}
+                ctx.count_case(("corpus", f))
+                if d is not None:
+                    corpus_failed.append(f)
+                    ctx.fail({"kind": d["kind"], "case": c, "diff": d["diff"], "entry": c["call"].get("entry"),
+                              "class": c["call"].get("cls"), "corpus": f})
+    budget = (45 if quick else 780) - min(30, time.time() - t0) * 0
+    deadline = time.time() + budget
+    max_rounds = 10 ** 9
+    i = 0
+    sched = None
+    while time.time() < deadline and i < max_rounds:
+        rng = random.Random(f"{ctx.seed}:{PROP}:{i}")
+        if sched is None:
+            sched = schedule_of(env, rng, focus=new_failing)
+        ses = one_round(ctx, env, rng, sched, stats, failures, seen_fail, deadline)
+        if ses is not None:
+            pending += ses.pending
+        i += 1
+    corr = check_pending(ctx, env, pending, failing, stats, sample=40 if quick else 150)
+    # replay of the committed findings
+    for fd in ctx.findings:
+        if fd.get("status") != "open":
+            continue
+        try:
+            with open(os.path.join(vlib.VERIF, fd["replay"])) as fh:
+                c = json.load(fh)
+            # some of the defects depend on the iteration order of a set of objects: a few attempts
+            d = None
+            for _attempt in range(5):
+                d, _ = replay_case(c.get("case", c), env)
+                if d is not None:
+                    break
+            fd["_reproduced"] = d is not None
+        except Exception:
+            fd["_reproduced"] = False
+    # coverage of the enumeration
+    uncovered, cannot = [], []
+    for key, e in E.items():
+        if e.kind in ("alias_set", "alias_del"):
+            continue
+        n = stats.by_entry.get(key, {}).get("rejected", 0)
+        if n == 0:
+            (uncovered if may_raise_entry(e.ir) else cannot).append(key)
+    coll_keys = [c + "." + m for c in COLL_KIND for m in G["coll_mutators"]]
+    extra = {
+        "enumeration": {"runtime property setters/deleters": len(rt_), "by kind": enum_classes,
+                        "hand-written setters/deleters/mutators translated": len(G["setters"]),
+                        "generated settable properties": len(G["generated"]), "decorator uses": len(G["props"]),
+                        "collection mutators x collection classes": len(coll_keys),
+                        "excluded from scope (translator)": G["excluded"]},
+        "analysis": {"fail checks_first": sorted(failing), "expected (Properties/C14.v)": sorted(EXCLUDED)},
+        "rounds": stats.rounds, "problem sizes (objects, bucket of 25)": stats.sizes, "counts": stats.n,
+        "rejected by invalid-argument class": stats.classes, "exception classes": stats.exceptions,
+        "argument kinds": stats.argkinds,
+        "per entry": {k: v for k, v in sorted(stats.by_entry.items())},
+        "entries never rejected although the IR has a statement that may raise": sorted(uncovered),
+        "entries that cannot be rejected (no may-raise statement in the IR; none observed)": sorted(cannot),
+        "collection entries exercised": sorted(k for k in stats.by_entry if k in coll_keys),
+        "correspondence": corr, "corpus_failed": corpus_failed,
+        "translator claims used": len(G["notes"]),
+    }
+    return ctx.finish(TRUSTED, ASSUMPTIONS, RULE, extra=extra)
+
+
+TRUSTED = vlib.KERNEL_TB + [
+    "harness/translate_setters.py (Python ast -> Gen/Setters.v): which functions are setters (property setters/deleters outside "
+    "input_parser/, the METHODS list, fail closed on any other public mutating method), statement recognition, inlining, and the "
+    "facts CALL_FACTS / CTOR_FACTS / SUBSCRIPT_FACTS about callees it does not translate; each use is validated at run time by "
+    "the trace walk (an exception at a statement claimed not to raise, or a mutation the IR does not show, is a disagreement)",
+    "harness/props/C14.py: snapshot (public attribute reads, str, repr, len, iteration of every object reachable from the problem), "
+    "sys.settrace walk of real calls along the IR, control problem B",
+]
+ASSUMPTIONS = [
+    "object state is abstracted to the list of executed mutation statements: `unchanged` in the theorems means no mutation "
+    "statement of the IR was executed; that the real objects are unchanged is what the snapshot oracle checks",
+    "calls into code the translator does not inline are opaque with (may_raise, may_mutate, atomic) flags claimed by the translator",
+    "collection mutators: Model/Coll.v (C06), not re-translated here",
+    "closure-cell latching of `types=()` properties (D16) is C17's subject: C14_later_edits holds for non-latching calls",
+]
+RULE = ("a call that raises leaves snapshot(A) == snapshot(B) and write(A) == write(B), B being the same problem driven through "
+        "the same program without the rejected call; model: Setter.exec with the traced oracle reproduces result, raise site and "
+        "mutation statements of every real call; Properties/C14.v: checks_first programs are atomic, every table entry is "
+        "checks_first or refuted")
+
+
+def replay(ctx, path):
+    env = make_env()
+    with open(path) as fh:
+        c = json.load(fh)
+    case = c.get("case", c)
+    if "call" not in case:
+        print("not a C14 case (broken-obligation record?)")
+        print(json.dumps(c, indent=1)[:3000])
+        return 1
+    d, info = replay_case(case, env)
+    print("call:", json.dumps(case["call"]))
+    print("raised:", info.get("raised"))
+    if d is None:
+        print("problem unchanged: the case passes")
+        return 0
+    print("DIFFERENCE", d["kind"])
+    for x in d["diff"]:
+        print("  ", x)
+    return 1
